@@ -42,6 +42,11 @@ def cfg_for_case(rng, k: int) -> GenCfg:
     elif r == 6:
         c.big_caps = True
         c.msg_bits = 20000
+    elif r == 7 and k % 16 == 7:
+        # messages up to the 65535-bit limit (few, large)
+        c.big_caps = True
+        c.msg_bits = 65000
+        c.max_fields = 4
     return c
 
 
